@@ -157,7 +157,7 @@ structure St where
   tas : Option TAS := none
   sendMax : Option Nat := none               -- publish_send_max
   recvMax : Option Nat := none               -- publish_recv_max
-  sendCount : Nat := 0                       -- publish_send_count (u16)
+  sendCount : Nat := 0                       -- publish_send_count (u32 since fix ab9a1ec)
   publishRecv : List Nat := []
   mpsSend : Nat := noLimit
   mpsRecv : Nat := noLimit
